@@ -5,3 +5,5 @@ package worldr
 const instrumented = false
 
 func setYieldHook(func(string)) {}
+
+func setBlockedHook(func(string)) {}
